@@ -446,6 +446,7 @@ type Contract struct {
 	PanicsUnless []Clause // run-time panic conditions of an extern: assumed (partial correctness) or, in the no-panic sweep, obligations
 	Applies  string   // extern that calls its function-valued parameter once: the closure's contract is applied at the call site
 	With     []Clause // facts about the arguments (arg0, arg1, ...) the extern passes to the applied closure
+	Focus    map[string][]string // "focus <label> : <invariant labels>": the loop invariants an obligation with that label needs
 	Parfor   string   // parallel-for: this parameter is a worker closure run once per extent (see applyParfor)
 	Worker   []string // worker closure: [index variable, offset parameter, entries parameter]
 	Each     []Clause // per-index postconditions of a worker closure (each also added to Ensures as a quantified clause)
@@ -460,6 +461,7 @@ type Contract struct {
 
 type SpecFunc struct {
 	Pkg    string // package path of the contract file that defines it ("" for .spec files): names in the body resolve there
+	Defined bool // "spec defined": an uninterpreted symbol plus its definition as a triggered axiom (keeps big bodies out of quantified formulas)
 	Opaque bool // uninterpreted unless the contract under verification reveals it
 	Name   string
 	Params []QVar
@@ -636,6 +638,18 @@ func (db *SpecDB) ParseSpecTextIn(lines []string, srcs []string, pkg string) err
 				return err
 			}
 			cur.PanicsUnless = append(cur.PanicsUnless, c)
+		case "focus":
+			if cur == nil {
+				return fmt.Errorf("%s: focus outside a contract", l.src)
+			}
+			parts := strings.SplitN(rest, ":", 2)
+			if len(parts) != 2 {
+				return fmt.Errorf("%s: focus <obligation label> : <invariant labels>", l.src)
+			}
+			if cur.Focus == nil {
+				cur.Focus = map[string][]string{}
+			}
+			cur.Focus[strings.TrimSpace(parts[0])] = strings.Fields(parts[1])
 		case "parfor":
 			if cur == nil {
 				return fmt.Errorf("%s: parfor outside a contract", l.src)
@@ -808,16 +822,24 @@ func (db *SpecDB) ParseSpecTextIn(lines []string, srcs []string, pkg string) err
 			}
 		case "spec":
 			// spec [opaque] name(a T, b U) R [= expr]
-			opaque := false
+			opaque, defined := false, false
 			if strings.HasPrefix(rest, "opaque ") {
 				opaque = true
 				rest = strings.TrimSpace(rest[len("opaque "):])
+			}
+			if strings.HasPrefix(rest, "defined ") {
+				defined = true
+				rest = strings.TrimSpace(rest[len("defined "):])
 			}
 			sf, err := parseSpecFunc(rest, l.src)
 			if err != nil {
 				return err
 			}
 			sf.Opaque = opaque
+			sf.Defined = defined
+			if defined && sf.Body == nil {
+				return fmt.Errorf("%s: spec defined needs a body", l.src)
+			}
 			sf.Pkg = pkg
 			db.Funcs[sf.Name] = sf
 			db.FuncOrder = append(db.FuncOrder, sf.Name)
